@@ -4,6 +4,8 @@
 cd "$(dirname "$0")/.."
 seeds="${@:-1 2 3 4 5}"
 ids=$(python3 -c "import json;print(' '.join(c['property_id'] for c in json.load(open('MANIFEST.json'))['checks']))")
+# when run from a snapshot (vp run) the relative path-deps ../../repo must resolve: link the real /repo next to the snapshot
+[ -e ../repo ] || ln -sfn /repo ../repo
 (cd harness && CARGO_NET_OFFLINE=true cargo build --release --offline >/dev/null 2>&1) || { echo BUILD-FAILED; exit 3; }
 rc=0
 for s in $seeds; do
